@@ -11,11 +11,15 @@ Clauses and their status on the UNCHANGED tree:
   * the embedded data cannot end the <script> element                      — FALSE (D12b): `embed_unsafe_unrepaired`;
                                                                              proved for the repaired embed (`embed_safe`, `embed_decodes`)
   * merchant ids are injective                                             — FALSE (D12c): `merchant_id_not_injective`;
-                                                                             `merchant_id_injective_partial` on quote/underscore-free names
+                                                                             `merchant_id_injective_partial` on quote/underscore-free names;
+                                                                             proved for the repaired allocation table, for EVERY list of
+                                                                             names (`merchant_ids_unique`, `merchant_ids_injective`,
+                                                                             `first_free_is_least`)
   * the data is spliced in verbatim                                        — FALSE (D12d): `placeholder_order_unrepaired_rescans`;
                                                                              proved when data is substituted last (`placeholder_order`)
   * per-category sums add up to the analysed total                         — `category_view_sums` under distinct ids (fails with D12c:
-                                                                             `category_view_loses_merchant`)
+                                                                             `category_view_loses_merchant`); with the repaired ids no
+                                                                             hypothesis is left (`category_view_sums_unique_ids`)
   * all formats report the same figures                                    — FALSE for JSON (D12e): `json_summary_disagrees`
 "Renders without error" (D12a, D12f) is a totality statement about the implementation; it is checked by the
 oracle of the harness, not modelled here.
@@ -142,6 +146,45 @@ theorem placeholder_order_unrepaired_rescans :
     spliceUnrepaired miniTemplate "c".toList "d=\"/* JS_PLACEHOLDER */\";".toList "J".toList
       = "<style>c</style><script>d=\"J\";</script><script>J</script>".toList := by decide +kernel
 
+/-! ### unique merchant ids (the repaired allocation, D12c) -/
+
+/-- **ids are injective for EVERY list of names** — any characters, any order, repeats allowed, including names
+whose natural id equals an id generated for another name (`Joe's`, `Joes`, `Joes 2`, `Joes_2`, …):
+no two names share an id, no name is listed twice, and every name has an id. -/
+theorem merchant_ids_unique (names : List (List Char)) :
+    ((allocIds names).map (·.2)).Nodup ∧ ((allocIds names).map (·.1)).Nodup ∧
+    ∀ n ∈ names, n ∈ (allocIds names).map (·.1) :=
+  have ok := foldl_allocOne_ok names [] ⟨List.nodup_nil, List.nodup_nil⟩
+  ⟨ok.1, ok.2, fun n hn => foldl_allocOne_total names [] n hn⟩
+
+/-- the same, as injectivity of the map name ↦ id -/
+theorem merchant_ids_injective (names : List (List Char)) (a b i : List Char)
+    (ha : (a, i) ∈ allocIds names) (hb : (b, i) ∈ allocIds names) : a = b :=
+  nodup_map_snd_inj (merchant_ids_unique names).1 ha hb
+
+/-- distinct names (the keys of `by_merchant`) come out in the same order: the table drops and reorders nothing -/
+theorem merchant_ids_keys (names : List (List Char)) (h : names.Nodup) : (allocIds names).map (·.1) = names := by
+  have := foldl_allocOne_keys_nodup names [] h (by simp)
+  simpa [allocIds] using this
+
+/-- the model's bounded loop IS the `while candidate in merchant_ids.values()` loop: started with as much fuel as
+there are ids, it returns candidate number `k` where every candidate `1 … k-1` is taken and candidate `k` is free
+(so the fuel bound is never what stops it) -/
+theorem first_free_is_least (used : List (List Char)) (base : List Char) :
+    ∃ k, 1 ≤ k ∧ firstFree used base used.length 1 = idCandidate base k ∧
+      (∀ j, 1 ≤ j → j < k → idCandidate base j ∈ used) ∧ idCandidate base k ∉ used := by
+  obtain ⟨k, h1, _, h3, h4⟩ := firstFree_spec used base used.length 1
+  exact ⟨k, h1, h3, h4, h3 ▸ firstFree_not_mem used base⟩
+
+/-- a generated id can coincide with another name's natural id — the allocation must look at the ids handed out,
+not only at the bases seen: with `Joe's`, `Joes`, `Joes 2` the third name cannot keep `Joes_2` -/
+theorem merchant_ids_generated_vs_natural :
+    allocIds ["Joe's".toList, "Joes".toList, "Joes 2".toList] =
+      [("Joe's".toList, "Joes".toList), ("Joes".toList, "Joes_2".toList), ("Joes 2".toList, "Joes_2_2".toList)] ∧
+    allocIds ["Joes 2".toList, "Joe's".toList, "Joes".toList] =
+      [("Joes 2".toList, "Joes_2".toList), ("Joe's".toList, "Joes".toList), ("Joes".toList, "Joes_3".toList)] := by
+  decide +kernel
+
 /-! ### category view (build_category_view) -/
 
 /-- with pairwise distinct merchant ids every merchant reaches the category view and the per-category sums add
@@ -156,6 +199,26 @@ theorem category_view_sums (rows : List MRow) (h : idsDistinct rows = true) :
   · simp only [categoryViewTotal, analysedTotal, e, List.map_map]; rfl
   · simp only [categoryViewSums, foldl_addTo_sum, analysedTotal, e, List.map_map]
     simp only [List.map_nil, List.sum_nil, Int.zero_add]; rfl
+
+/-- with the ids of the allocation table NO hypothesis is left: for every list of merchant names and whatever
+`by_merchant` holds for them, every merchant reaches the category view and the sums add up; when the names are
+distinct (dict keys) the view lists exactly the analysed totals, merchant by merchant, in order -/
+theorem category_view_sums_unique_ids (names : List (List Char)) (data : List Char → MRow) :
+    (allMerchants (rowsOf names data)).map (·.2) = rowsOf names data ∧
+    categoryViewTotal (rowsOf names data) = analysedTotal (rowsOf names data) ∧
+    ((categoryViewSums (rowsOf names data)).map (·.2)).sum = analysedTotal (rowsOf names data) ∧
+    (names.Nodup → (rowsOf names data).map (·.ytd) = names.map fun n => (data n).ytd) := by
+  have hd : idsDistinct (rowsOf names data) = true := by
+    apply idsDistinct_of_nodup
+    have : (rowsOf names data).map (·.id) = (allocIds names).map (·.2) := by
+      simp [rowsOf, List.map_map, Function.comp_def]
+    rw [this]; exact (merchant_ids_unique names).1
+  obtain ⟨h1, h2, h3⟩ := category_view_sums _ hd
+  refine ⟨h1, h2, h3, fun hn => ?_⟩
+  have hk := merchant_ids_keys names hn
+  have : (rowsOf names data).map (·.ytd) = ((allocIds names).map (·.1)).map fun n => (data n).ytd := by
+    simp [rowsOf, List.map_map, Function.comp_def]
+  rw [this, hk]
 
 def joeRows : List MRow :=
   [⟨makeMerchantId "Joe's".toList, "Food".toList, "R".toList, 1000, 1⟩,
